@@ -97,10 +97,14 @@ def impl_run(case):
         p, d = dtw.warping_path_fast(s1, s2, include_distance=True, **kw)
         return {"path": p, "d": d, "forced_sq": True}
     if site == "c.best_path_compact":
-        d, wps = dtw.warping_paths_fast(s1, s2, compact=True, **kw)
-        ck = dtw.DTWSettings(**kw).c_kwargs()
+        # dtw_best_path compares matrix values plus the (internal, e.g. squared) penalty: it has to be given the
+        # matrix in the internal representation, as dtw_warping_path itself does
+        d, wps = dtw.warping_paths_fast(s1, s2, compact=True, keep_int_repr=True, **kw)
+        stt = dtw.DTWSettings(**kw)
+        ck = stt.c_kwargs()
         p = dtw_cc.best_path_compact(wps, len(s1), len(s2), **ck)
-        return {"path": p, "d": d}
+        _, result_fn, _ = __import__("dtaidistance.innerdistance", fromlist=["x"]).inner_dist_fns(stt.inner_dist)
+        return {"path": p, "d": result_fn(d)}
     if site == "py.best_path_on_c":
         # best_path as documented: "penalty: ... paths should be expressed as the internal representation"
         d, m = dtw.warping_paths_fast(s1, s2, keep_int_repr=True, **kw)
